@@ -95,16 +95,23 @@ def signature_defaults(fn):
 def check_call(c, inputs, want_result=False):
     """Run the real function on `inputs` (JSON recipe) under its contract.
     Returns dict(status, clause, detail)."""
-    fn = adapt.resolve(c.key)
+    fn = adapt.resolve(c.key) if "::" in c.key and not c.key.startswith("prop::") else None
     try:
-        args = {}
-        for name, t in c.params.items():
-            if name in inputs:
-                args[name] = adapt.build(inputs[name], t)
-            else:
-                raise KeyError("recipe lacks parameter " + name)
+        if "__gen__" in inputs:
+            import random
+            seed, i, tier = inputs["__gen__"]
+            args = c.gen(random.Random("%s|%s|%s" % (seed, c.key, i)), tier, i)
+            if args is None:
+                return dict(status="invalid", clause="gen", detail="exhausted")
+        else:
+            args = {}
+            for name, t in c.params.items():
+                if name in inputs:
+                    args[name] = adapt.build(inputs[name], t)
+                else:
+                    raise KeyError("recipe lacks parameter " + name)
     except Exception as exc:
-        return dict(status="error", clause="build", detail="%s: %s" % (type(exc).__name__, exc))
+        return dict(status="error", clause="build", detail="%s: %s" % (type(exc).__name__, traceback.format_exc()[-600:]))
     params = list(c.params)
     env = spec_env()
     for n, v in args.items():
@@ -128,7 +135,7 @@ def check_call(c, inputs, want_result=False):
     exc_info = None
     result = None
     try:
-        result = fn(**args)
+        result = c.call(fn, args) if c.call else fn(**args)
         if inspect.isgenerator(result) or c.yields is not None:
             result = list(result)
     except Exception as exc:   # the real code raised
@@ -142,7 +149,7 @@ def check_call(c, inputs, want_result=False):
             return dict(status="violation", clause="raises_only_when", detail="%s: %s" % (ename, exc_info))
         if ename in c.may_raise:
             return out
-        return dict(status="violation", clause="raise_unreach(%s)" % ename,
+        return dict(status="violation", clause="raise_unreach(%s)" % ename, shown=adapt.to_json(args),
                     detail="%s: %s" % (ename, str(exc_info)[:300]),
                     trace="".join(traceback.format_exception(type(exc_info), exc_info, exc_info.__traceback__)[-6:]))
     if c.raises and when:
@@ -159,6 +166,14 @@ def check_call(c, inputs, want_result=False):
                         observed=adapt.to_json(result))
         if not ok:
             return dict(status="violation", clause="post:" + lab, detail=text, observed=adapt.to_json(result))
+    for lab, f in c.checks:
+        try:
+            msg = f(args, result, old)
+        except Exception as exc:
+            msg = "check not evaluable: %s" % traceback.format_exc()[-500:]
+        if msg:
+            return dict(status="violation", clause="post:" + lab, detail=str(msg)[:1500], observed=adapt.to_json(result),
+                        shown=adapt.to_json(old))
     for n, v in args.items():
         if n in c.modifies:
             continue
@@ -201,16 +216,64 @@ def cmd_batch(path_in, path_out):
     return 0
 
 
+def _standin_one(job):
+    from runner import gen
+    key, n, seed, tier = job
+    c = dsl.CONTRACTS[key]
+    rec = dict(function=key, evaluations=0, valid=0, invalid=0, distinct=0, violations=0, errors=0,
+               bound=gen.describe(c, tier), samples=[], tier_of_contract="bounded" if c.bounded else "deductive+runtime")
+    viol = []
+    seen = set()
+    t0 = time.time()
+    budget = float(os.environ.get("VERIF_STANDIN_BUDGET_S", "60" if tier == "quick" else "900"))
+    for inputs in gen.generate(c, n, seed, tier):
+        if time.time() - t0 > budget:
+            rec["stopped_by_budget_s"] = budget
+            break
+        try:
+            r = check_call(c, inputs)
+        except Exception:
+            r = dict(status="error", clause="runner", detail=traceback.format_exc()[-800:])
+        if r["status"] == "invalid" and r.get("clause") == "gen":
+            rec["exhaustive"] = True
+            break
+        rec["evaluations"] += 1
+        if r["status"] == "invalid":
+            rec["invalid"] += 1
+            continue
+        if r["status"] == "error":
+            rec["errors"] += 1
+            if len(rec.get("error_samples", [])) < 2:
+                rec.setdefault("error_samples", []).append(dict(inputs=inputs, detail=r.get("detail", "")[:600]))
+            continue
+        rec["valid"] += 1
+        h = json.dumps(inputs, sort_keys=True, default=str)
+        if h not in seen:
+            seen.add(h)
+            if gen.nontrivial(c, inputs):
+                rec["distinct"] += 1
+        if len(rec["samples"]) < 2 and gen.nontrivial(c, inputs):
+            rec["samples"].append(inputs if "__gen__" not in inputs else dict(inputs, shown=r.get("shown_inputs")))
+        if r["status"] == "violation":
+            rec["violations"] += 1
+            if len([v for v in viol if v["clause"] == r["clause"]]) < 3:
+                viol.append(dict(function=key, clause=r["clause"], detail=r.get("detail", "")[:1500],
+                                 inputs=inputs, observed=r.get("observed"), shown=r.get("shown")))
+    rec["seconds"] = round(time.time() - t0, 2)
+    return rec, viol
+
+
 def cmd_standin(prop, n, seed, path_out, tier="quick", only=None):
     """Bounded stand-in: every contract of the property, run-time checked on generated inputs."""
-    from runner import gen
     load_contracts()
     import logging
+    import multiprocessing as mp
     import pandas as pd
     logging.disable(logging.CRITICAL)
     assert int(pd.__version__.split(".")[0]) >= 3, "pandas >= 3 (copy-on-write always on) is assumed by the contracts"
     out = dict(property=prop, functions=[], violations=[], wall_s=0.0)
     t0 = time.time()
+    jobs = []
     for key, c in dsl.CONTRACTS.items():
         if prop not in c.props and prop != "ALL":
             continue
@@ -218,37 +281,16 @@ def cmd_standin(prop, n, seed, path_out, tier="quick", only=None):
             continue
         if c.domain == "skip":
             continue
-        rec = dict(function=key, evaluations=0, valid=0, invalid=0, distinct=0, violations=0, errors=0,
-                   bound=gen.describe(c, tier), samples=[])
-        seen = set()
-        for inputs in gen.generate(c, n, seed, tier):
-            rec["evaluations"] += 1
-            try:
-                r = check_call(c, inputs)
-            except Exception:
-                r = dict(status="error", clause="runner", detail=traceback.format_exc()[-800:])
-            if r["status"] == "invalid":
-                rec["invalid"] += 1
-                continue
-            if r["status"] == "error":
-                rec["errors"] += 1
-                if len(rec["samples"]) < 1:
-                    rec.setdefault("error_samples", []).append(r)
-                continue
-            rec["valid"] += 1
-            h = json.dumps(inputs, sort_keys=True, default=str)
-            if h not in seen:
-                seen.add(h)
-                if gen.nontrivial(c, inputs):
-                    rec["distinct"] += 1
-            if len(rec["samples"]) < 2 and gen.nontrivial(c, inputs):
-                rec["samples"].append(inputs)
-            if r["status"] == "violation":
-                rec["violations"] += 1
-                if len([v for v in out["violations"] if v["function"] == key and v["clause"] == r["clause"]]) < 3:
-                    out["violations"].append(dict(function=key, clause=r["clause"], detail=r.get("detail", "")[:500],
-                                                  inputs=inputs, observed=r.get("observed")))
+        nn = n if not c.bounded else int(n * float(c.ghost.get("standin_factor", 1)))
+        jobs.append((key, nn, seed, tier))
+    if len(jobs) > 1:
+        with mp.get_context("fork").Pool(min(16, len(jobs))) as pool:
+            res = pool.map(_standin_one, jobs, chunksize=1)
+    else:
+        res = [_standin_one(j) for j in jobs]
+    for rec, viol in res:
         out["functions"].append(rec)
+        out["violations"] += viol
     out["wall_s"] = time.time() - t0
     with open(path_out, "w") as fh:
         json.dump(out, fh, default=str)
